@@ -23,6 +23,13 @@ def run(ctx, model_available=True):
                     ("recv", "7;1;2;0;2;", ()), ("set_reboot", 7, True), ("recv", f"7;1;1;0;2;{again}", ()),
                     ("recv", "7;1;2;0;2;", ()), ("recv", f"7;1;1;0;2;{again}", ())]
             hs.append(ops)
+    # id requests at the top of the id range: the highest registered id is 252 / 253 / 254 (the
+    # request that hands out 254 must still be answered), and nodes joining one after another
+    for v in (None, "1.4", "1.5", "2.0", "2.1", "2.2"):
+        for top in (1, 252, 253, 254):
+            ops = [("recv", f"0;255;3;0;2;{v}", ())] if v else []
+            ops += [("put_node", top, 17, "2.0", False)] + [("recv", "255;255;3;0;3;", ())] * 3
+            hs.append(ops)
     # time requests under several time zones (fixed offsets, daylight saving in effect all year)
     import os
     import time as _time
